@@ -34,10 +34,12 @@ package tq
 // Every retry granted after a failed batch call or an unusable action is
 // within budget and for a retriable error; a Retry-After time is passed on.
 //@ func (*TransferQueue).enqueueAndCollectRetriesFor
-//@   props C15 C06
+//@   props C15 C06 C03
 //@   requires @inv q.wait != nil && !q.wait.abort && q.rc != nil
 //@   loop 4 iter @C06 (len(next) - iter(len(next))) + (iter(q.wait.counter) - q.wait.counter) + (len(toTransfer) - iter(len(toTransfer))) == 1
 //@   at loop 4 entry assert @C06 len(bRes.Objects) == len(batch)
+//@   loop 3 invariant @C03 forall_int(i, bRes.Objects[i], 0 <= i && i <= rangeindex ==> !(bRes.Objects[i].Missing && !isempty(bRes.Objects[i].Actions)))
+//@   at loop 4 entry assert @C03 q.direction == Upload ==> forall_int(i, bRes.Objects[i], 0 <= i && i < len(bRes.Objects) ==> !(bRes.Objects[i].Missing && !isempty(bRes.Objects[i].Actions)))
 //@   at call (*tq.TransferQueue).enqueueAndCollectRetriesFor$1:1 assert err_retriable(err) && q.rc.count[t.Oid] < q.rc.MaxRetries
 //@   at call (*tq.TransferQueue).enqueueAndCollectRetriesFor$1:2 assert err_retriable_later(err) && q.rc.count[t.Oid] < q.rc.MaxRetries && readyTime == err_retry_time(err)
 //@   at call (*tq.TransferQueue).enqueueAndCollectRetriesFor$1:3 assert err_retriable(err) && q.rc.count[tr.Oid] < q.rc.MaxRetries
@@ -328,3 +330,25 @@ package tq
 //@   assumed
 //@   props C02 C09
 //@   modifies fresh
+
+// C03: local completeness check of uploads.  Of the transfers the server asks
+// for, exactly those whose object file exists with the recorded size are
+// handed to the adapter; every other one yields an error result (missing or
+// corrupt), so none is silently dropped.
+//@ func (*TransferQueue).partitionTransfers
+//@   props C03
+//@   requires @inv q != nil && forall_int(i, transfers[i], 0 <= i && i < len(transfers) ==> transfers[i] != nil)
+//@   loop 1 iter (len(present) - iter(len(present))) + (len(results) - iter(len(results))) == 1
+//@   loop 1 iter len(present) >= iter(len(present)) && len(results) >= iter(len(results))
+//@   loop 1 iter len(present) > iter(len(present)) ==> present[iter(len(present))] == t && t.Size >= 0 && fexists(t.Path) && len(fdata(t.Path)) == t.Size
+//@   loop 1 iter len(results) > iter(len(results)) ==> results[iter(len(results))].Transfer == t && results[iter(len(results))].Error != nil
+//@ func newObjectMissingError
+//@   assumed
+//@   props C03
+//@   modifies fresh
+//@   ensures result != nil
+//@ func newCorruptObjectError
+//@   assumed
+//@   props C03
+//@   modifies fresh
+//@   ensures result != nil
